@@ -200,6 +200,7 @@ class _Finder(importlib.abc.MetaPathFinder):
 
 
 _installed = False
+REAL_NUMPY = None
 
 
 def install():
@@ -207,9 +208,20 @@ def install():
     global _installed
     if _installed:
         return
+    global REAL_NUMPY
     for k in list(sys.modules):
-        if k == "numpy" or k.startswith("numpy.") or k == "dimarray" or k.startswith("dimarray."):
-            raise RuntimeError("dverif.loader.install() must run before numpy / dimarray are imported (found %s)" % k)
+        if k == "dimarray" or k.startswith("dimarray."):
+            raise RuntimeError("dverif.loader.install() must run before dimarray is imported (found %s)" % k)
+    # keep a handle on the interpreter's real NumPy (only consulted to tell a gap of the model from behaviour of NumPy itself,
+    # e.g. whether a NumPy scalar has a given attribute), then hand the name `numpy` to the model
+    try:
+        import numpy as _np
+        REAL_NUMPY = _np
+    except Exception:
+        REAL_NUMPY = None
+    for k in list(sys.modules):
+        if k == "numpy" or k.startswith("numpy."):
+            del sys.modules[k]
     sys.modules["numpy"] = symnp
     sys.modules["numpy.ma"] = symnp.ma
     sys.meta_path.insert(0, _Finder())
